@@ -45,6 +45,22 @@ def gen_cases(tier, seed):
             if not any(col["kind"] in ("str", "ostr", "bytes") for col in c["frame"]["cols"]):
                 c["frame"]["cols"].append({"name": "longtext", "kind": ["str", "ostr", "bytes"][i % 3], "nulls": "p20", "vals": "long"})
             c["opts"]["stats"] = True
+        if i % 13 == 6 and not isinstance(c["opts"].get("object_encoding"), str):
+            # fixed-width text / binary (FIXED_LEN_BYTE_ARRAY): values are cut or NUL-padded to the width, bounds must be the stored ones
+            c["frame"]["cols"].append({"name": "fx", "kind": "ostr", "nulls": ["none", "p20"][i % 2], "vals": "small"})
+            c["frame"]["cols"].append({"name": "fy", "kind": "bytes", "nulls": "none", "vals": "edge"})
+            c["opts"]["fixed_text"] = {"fx": 1, "fy": 3}
+            if isinstance(c["opts"].get("object_encoding"), dict):
+                c["opts"]["object_encoding"].update({"fx": "utf8", "fy": "bytes"})
+            c["opts"]["stats"] = True
+            c["fixed_text"] = True
+        if i % 11 == 5 and not isinstance(c["opts"].get("object_encoding"), str):
+            # a JSON column whose Python values are orderable
+            c["frame"]["cols"].append({"name": "jl", "kind": "json", "nulls": "p20", "vals": "lists"})
+            if isinstance(c["opts"].get("object_encoding"), dict):
+                c["opts"]["object_encoding"]["jl"] = "json"
+            c["opts"]["stats"] = True
+            c["json_lists"] = True
         cases.append(c)
     return cases
 
@@ -136,6 +152,10 @@ def run_case(case):
                     counters["null_counts_compared"] = counters.get("null_counts_compared", 0) + 1
                     if st["null_count"] != ch["nulls"]:
                         res["failures"].append({"kind": "null_count_wrong", "stat": st["null_count"], "actual": ch["nulls"], **ctx})
+                if ptype == "FIXED_LEN_BYTE_ARRAY" and case.get("fixed_text"):
+                    counters["fixed_width_text_chunks_examined"] = counters.get("fixed_width_text_chunks_examined", 0) + 1
+                if kinds.get(name) == "json" and case.get("json_lists"):
+                    counters["orderable_json_chunks_examined"] = counters.get("orderable_json_chunks_examined", 0) + 1
                 if smin is None and smax is None:
                     truth[(name, gi)] = (None, None)
                     continue
@@ -191,6 +211,10 @@ def run_case(case):
                         want = R.convert_value(truth[(name, gi)][idx], ptype, lk)
                         got = api_canon(api_v, lk, ptype)
                         counters["api_stats_compared"] = counters.get("api_stats_compared", 0) + 1
+                        if ptype == "FIXED_LEN_BYTE_ARRAY" and case.get("fixed_text"):
+                            # the trailing NULs are the padding to the fixed width, not part of the value that was written
+                            unpad = lambda t_: (t_[0], t_[1].rstrip("\x00" if isinstance(t_[1], str) else b"\x00")) if isinstance(t_, tuple) and len(t_) == 2 and isinstance(t_[1], (str, bytes)) else t_
+                            want, got = unpad(want), unpad(got)
                         if not same_logical(want, got):
                             res["failures"].append({"kind": "api_statistic_differs", "which": which, "column": name, "row_group": gi,
                                                     "api": repr(api_v)[:60], "api_canon": repr(got)[:60], "actual": repr(want)[:60],
@@ -321,4 +345,4 @@ def same_logical(want, got):
 
 
 def required(tier):
-    return {"chunks_with_minmax": 1500, "null_counts_compared": 1500, "api_stats_compared": 1500, "sorted_columns_checked": 50, "statistics_after_edit_compared": 20, "statistics_after_append_compared": 100, "sliced_statistics_compared": 300}
+    return {"chunks_with_minmax": 1500, "null_counts_compared": 1500, "api_stats_compared": 1500, "sorted_columns_checked": 50, "statistics_after_edit_compared": 20, "statistics_after_append_compared": 100, "sliced_statistics_compared": 300, "orderable_json_chunks_examined": 20, "fixed_width_text_chunks_examined": 20}
